@@ -1,13 +1,16 @@
 (* C12 — semantics of the map-statement language (Lib/MapLang.v) over the model's map type, and the effect of a call as the
-   REGENERATED method body says it (Gen/SafeKVCode.v, dumped from mapz/safekv.go on every run by gen/safekv_code.go).
-   Proofs/SafeKVCode.v proves [code_effect] equal to the hand-written specification [sem] (and so to [exec_call]). *)
+   REGENERATED method body says it (Gen/SafeKVCode*.v, dumped from mapz/safekv.go + iter.go on every run by
+   gen/safekv_code.go).  Proofs/SafeKVCode.v proves it equal to the hand-written specification [sem] (and so to [exec_call]). *)
 From Coq Require Import List Arith ZArith Bool.
 From V Require Import Lib.Enc Lib.MapLang Gen.SafeKVCode Model.SafeKV.
 Import ListNotations.
 
 (* state of one sequential execution of a method body: the map, the locals (all 0 at the start: Go's zero values; a bool is
-   0 / 1), and the returned values once a return statement ran (the statements after it are skipped) *)
-Record cstate := { s_map : map_; s_env : nat -> Z; s_sl : nat -> list Z; s_ret : option (list Z) }.
+   0 / 1), the slice locals, and the returned values once a return statement ran (the statements after it are skipped) *)
+Record cstate := { s_map : map_; s_env : nat -> Z; s_sl : nat -> list Z; s_ret : option (list Z);
+                   s_brk : bool;        (* a break is on its way to the innermost loop *)
+                   s_n : nat;           (* callback calls so far *)
+                   s_log : list Z       (* what the callbacks were handed / observed *) }.
 
 Definition env_set (e : nat -> Z) (x : nat) (v : Z) : nat -> Z := fun y => if Nat.eqb y x then v else e y.
 Definition env_set_opt (e : nat -> Z) (x : option nat) (v : Z) : nat -> Z :=
@@ -23,52 +26,79 @@ Fixpoint eval (args : list Z) (e : nat -> Z) (x : exp) : Z :=
   | EZero => 0%Z
   end.
 
-Fixpoint exec (args vs : list Z) (s : stmt) (st : cstate) : cstate :=
-  match s_ret st with
-  | Some _ => st
-  | None =>
+Definition upd_me (st : cstate) (m : map_) (e : nat -> Z) : cstate :=
+  {| s_map := m; s_env := e; s_sl := s_sl st; s_ret := None; s_brk := false; s_n := s_n st; s_log := s_log st |}.
+Definition clear_brk (st : cstate) : cstate :=
+  {| s_map := s_map st; s_env := s_env st; s_sl := s_sl st; s_ret := s_ret st; s_brk := false; s_n := s_n st; s_log := s_log st |}.
+Definition stopped (st : cstate) : bool := match s_ret st with Some _ => true | None => s_brk st end.
+
+(* the callbacks are parameters: [cb n xs] = the bool (0 / 1) the scalar callback answers on its (n+1)-th call with arguments
+   xs; [mcb m] = what the map callback of Map makes of the map it is handed, and what it observed *)
+Section Exec.
+Variable cb : nat -> list Z -> Z.
+Variable mcb : map_ -> map_ * list Z.
+Variables args vs : list Z.
+
+Fixpoint exec (s : stmt) (st : cstate) : cstate :=
+  if stopped st then st else
       let m := s_map st in let e := s_env st in let l := s_sl st in
       match s with
       | SSkip => st
-      | SSeq a b => exec args vs b (exec args vs a st)
-      | SAssign x a => {| s_map := m; s_env := env_set e x (eval args e a); s_sl := l; s_ret := None |}
+      | SSeq a b => exec b (exec a st)
+      | SAssign x a => upd_me st m (env_set e x (eval args e a))
       | SLookup xv xok k =>
           (* Go: a missing key gives the zero value and false; both targets are assigned after the lookup, left to right *)
           let r := get m (eval args e k) in
           let v := match r with Some v => v | None => 0%Z end in
           let ok := match r with Some _ => 1%Z | None => 0%Z end in
-          {| s_map := m; s_env := env_set_opt (env_set_opt e xv v) xok ok; s_sl := l; s_ret := None |}
-      | SStore k v => {| s_map := put m (eval args e k) (eval args e v); s_env := e; s_sl := l; s_ret := None |}
-      | SDelete k => {| s_map := del m (eval args e k); s_env := e; s_sl := l; s_ret := None |}
-      | SLen x => {| s_map := m; s_env := env_set e x (Z.of_nat (length m)); s_sl := l; s_ret := None |}
-      | SClear => {| s_map := []; s_env := e; s_sl := l; s_ret := None |}
-      | SIf c t f => if (eval args e c =? 0)%Z then exec args vs f st else exec args vs t st
+          upd_me st m (env_set_opt (env_set_opt e xv v) xok ok)
+      | SStore k v => upd_me st (put m (eval args e k) (eval args e v)) e
+      | SDelete k => upd_me st (del m (eval args e k)) e
+      | SLen x => upd_me st m (env_set e x (Z.of_nat (length m)))
+      | SClear => upd_me st [] e
+      | SIf c t f => if (eval args e c =? 0)%Z then exec f st else exec t st
       | SForArgs x b =>
-          fold_left (fun st' k => match s_ret st' with
-                                  | Some _ => st'
-                                  | None => exec args vs b {| s_map := s_map st'; s_env := env_set (s_env st') x k; s_sl := s_sl st'; s_ret := None |}
-                                  end) vs st
-      | SReturn es => {| s_map := m; s_env := e; s_sl := l; s_ret := Some (map (eval args e) es) |}
-      | SMakeSlice x => {| s_map := m; s_env := e; s_sl := sl_set l x []; s_ret := None |}
-      | SAppend x a => {| s_map := m; s_env := e; s_sl := sl_set l x (l x ++ [eval args e a]); s_ret := None |}
+          clear_brk (fold_left (fun st' k => if stopped st' then st' else exec b (upd_me st' (s_map st') (env_set (s_env st') x k))) vs st)
+      | SReturn es => {| s_map := m; s_env := e; s_sl := l; s_ret := Some (map (eval args e) es); s_brk := false; s_n := s_n st; s_log := s_log st |}
+      | SMakeSlice x => {| s_map := m; s_env := e; s_sl := sl_set l x []; s_ret := None; s_brk := false; s_n := s_n st; s_log := s_log st |}
+      | SAppend x a => {| s_map := m; s_env := e; s_sl := sl_set l x (l x ++ [eval args e a]); s_ret := None; s_brk := false; s_n := s_n st; s_log := s_log st |}
       | SRangeMap kx vx b =>
           (* the pairs of the map as it is when the loop starts, in the model's (ascending key) order; Go's order is
              unspecified: results that depend on it are compared sorted *)
-          fold_left (fun st' kv => match s_ret st' with
-                                   | Some _ => st'
-                                   | None => exec args vs b {| s_map := s_map st'; s_env := env_set_opt (env_set_opt (s_env st') kx (fst kv)) vx (snd kv);
-                                                               s_sl := s_sl st'; s_ret := None |}
-                                   end) m st
-      | SReturnSlice x => {| s_map := m; s_env := e; s_sl := l; s_ret := Some (put_list (l x)) |}
-      end
-  end.
+          clear_brk (fold_left (fun st' kv => if stopped st' then st' else
+                                  exec b (upd_me st' (s_map st') (env_set_opt (env_set_opt (s_env st') kx (fst kv)) vx (snd kv)))) m st)
+      | SReturnSlice x => {| s_map := m; s_env := e; s_sl := l; s_ret := Some (put_list (l x)); s_brk := false; s_n := s_n st; s_log := s_log st |}
+      | SCall es xres =>
+          let xs := map (eval args e) es in
+          {| s_map := m; s_env := env_set_opt e xres (cb (s_n st) xs); s_sl := l; s_ret := None; s_brk := false;
+             s_n := S (s_n st); s_log := s_log st ++ xs |}
+      | SCallMap =>
+          {| s_map := fst (mcb m); s_env := e; s_sl := l; s_ret := None; s_brk := false; s_n := S (s_n st); s_log := s_log st ++ snd (mcb m) |}
+      | SBreak => {| s_map := m; s_env := e; s_sl := l; s_ret := None; s_brk := true; s_n := s_n st; s_log := s_log st |}
+      end.
 
-(* a method body run on a map: the map it leaves and the values it returns *)
+Definition run_state (md : method) (m : map_) : cstate :=
+  exec (m_body md) {| s_map := m; s_env := fun _ => 0%Z; s_sl := fun _ => []; s_ret := None; s_brk := false; s_n := 0; s_log := [] |}.
+End Exec.
+
+Definition no_mcb : map_ -> map_ * list Z := fun m => (m, []).
+(* a callback-free method body run on a map: the map it leaves and the values it returns *)
 Definition run_method (md : method) (args vs : list Z) (m : map_) : map_ * list Z :=
-  let st := exec args vs (m_body md) {| s_map := m; s_env := fun _ => 0%Z; s_sl := fun _ => []; s_ret := None |} in
+  let st := run_state (fun _ _ => 1%Z) no_mcb args vs md m in
   (s_map st, match s_ret st with Some r => r | None => [] end).
+(* a callback method: the map it leaves, how often it called back, and the log of what the callbacks were handed *)
+Definition run_cb (cb : nat -> list Z -> Z) (mcb : map_ -> map_ * list Z) (md : method) (args : list Z) (m : map_) : map_ * nat * list Z :=
+  let st := run_state cb mcb args [] md m in (s_map st, s_n st, s_log st).
 
-(* the generated body and the actual parameters of a call (None: callback and iteration methods, not translated) *)
+(* the callbacks of the model's calls, and how the model's result reads the log *)
+Definition stop_cb (stop : nat) : nat -> list Z -> Z := fun n _ => match stop with O => 1%Z | _ => zb (negb (Nat.eqb (S n) stop)) end.
+Definition iter_enc (stop : nat) (n : nat) (log : list Z) : list Z :=
+  match stop with O => put_list log | _ => [Z.of_nat n; 1%Z] end.
+Definition lock_enc (n : nat) (log : list Z) : list Z := match n with O => [0%Z] | _ => 1%Z :: log end.
+Definition map_cb (f a b : Z) : map_ -> map_ * list Z := fun m => (user_fn f a b m, [Z.of_nat (length m)]).
+
+(* the generated body and the actual parameters of a call (None: callback methods and GetWithMap, stated separately / not
+   translated; Values is stated modulo order) *)
 Definition code_of (c : call) : option (method * list Z * list Z) :=
   match c with
   | CGet k => Some (code_Get, [k], [])
